@@ -12,6 +12,7 @@ package main
 //
 //	S <ref-hex> <var-hex> <tree>  statement separation under inserted comments, see c18sep.go
 //	B <src-hex> <markoff>         a break point on the real debugger, see c18bp.go
+//	U <lo> <hi>                   IsSpace / IsControl / IsNumber / DecodeRune for the code points lo..hi-1
 //
 // The model side (lean/Ecal/Drivers/C18.lean) lexes the same bytes with the lexer model, and
 // recomputes the true line / column from the byte offsets.
@@ -360,6 +361,7 @@ func init() {
 				c18SepGen(g, 8, 3000, 3000)
 				c18BreakGen(g, 600)
 			}
+			c18SweepGen(g)
 			for i := 0; i < nRandom; i++ {
 				n := 2 + g.R.Intn(4)
 				if i%3 == 0 {
@@ -377,6 +379,10 @@ func init() {
 				return c18Err(f[1], unhx(f[2]), f[3], "")
 			case len(f) == 5 && f[0] == "E":
 				return c18Err(f[1], unhx(f[2]), f[3], f[4])
+			case len(f) == 3 && f[0] == "U":
+				lo, _ := strconv.Atoi(f[1])
+				hi, _ := strconv.Atoi(f[2])
+				return c18Sweep(lo, hi)
 			case len(f) == 3 && f[0] == "B":
 				off, _ := strconv.Atoi(f[2])
 				return c18Break(unhx(f[1]), off)
